@@ -49,46 +49,73 @@ def _bounds(t, lmax, extra=None):
     if extra: b.update(extra)
     return b
 
+def _mask(names, ops): return '0x%xu' % sum(1 << names.index(o) for o in ops)
+
+def _single(qs, tier, kind, names, entry, ops, t, lmax, un, label, what):
+    """the non-C-string operations `ops` on one length tuple: quick = ONE query running them one after the other (CBMC start-up dominates these tiny
+    queries), thorough = one query per operation"""
+    unary = label == 'unary'
+    if not ops: return
+    if tier == 'quick':
+        qs.append(Q('%s.%s.%s' % (kind, label, _tname(t, unary)), 'c15', H, entry, defs=_defs(t, lmax, OPSET=_mask(names, ops)), unwind=un, inline_witness=True, timeout=300, mem_gb=2,
+                    bounds=_bounds(t, lmax, {'operations': ', '.join(ops)}), group='%s.%s.%s' % (kind, label, _tname(t, unary)), what=what % ', '.join(ops)))
+    else:
+        for op in ops:
+            qs.append(Q('%s.%s.%s' % (kind, op, _tname(t, unary)), 'c15', H, entry, defs=_defs(t, lmax, OP=names.index(op)), unwind=un, inline_witness=True, timeout=300, mem_gb=2,
+                        bounds=_bounds(t, lmax), group='%s.%s' % (kind, op), what=what % op))
+
+def _cstr(qs, kind, names, entry, op, t, lmax, un, unary, what):
+    qs.append(Q('%s.%s.%s' % (kind, op, _tname(t, unary)), 'c15', H, entry, defs=_defs(t, lmax, OP=names.index(op), C15_PATHS=1), unwind=un, paths=True, inline_witness=True, timeout=600, mem_gb=2,
+                bounds=_bounds(t, lmax, CB), group='%s.%s' % (kind, op), what=what % op))
+
+W_VIEW = 'basic_string_view: %s agree(s) with the (bytes,len) reference; no access outside the source buffers'
+W_STR = ('basic_string<char, vp_allocator>: %s agree(s) with the (bytes,len) reference, data()[size()]==0, no access outside a source or the own buffer, '
+         'one block per string, nothing allocated after destruction')
+
 def queries(tier):
     qs = []
-    lmax = 4 if tier == 'quick' else 6
+    quick = tier == 'quick'
+    lmax = 4 if quick else 6
     un = 8 * lmax + 10
-    # ---- views: one query per (operation, length tuple)
-    for t in _tuples(lmax):
-        for k, op in enumerate(V_OPS):
-            unary = op in V_UNARY
-            if unary and (t[1] != 0 or t[3] != 0): continue
-            if op == 'index' and t[0] == 0: continue
-            if op in ('cstr', 'ptrlen') and t[2]: continue
-            if True:
-                cs = op in V_CSTR
-                qs.append(Q('view.%s.%s' % (op, _tname(t, unary)), 'c15', H, 'harness_view', defs=_defs(t, lmax, OP=k, **({'C15_PATHS': 1} if cs else {})), unwind=un, paths=cs, inline_witness=True, timeout=300, mem_gb=2,
-                            bounds=_bounds(t, lmax, CB if cs else None), group='view.%s' % op, what='basic_string_view: %s agrees with the (bytes,len) reference; no access outside the source buffers' % op))
+    lens2 = [0, 1, 2, 4] if quick else list(range(lmax + 1))      # lengths of two-operand queries (one-operand queries: every length 0..lmax)
+    tup2 = [t for t in _tuples(lmax) if t[0] in lens2 and t[1] in lens2]
+    tup1 = [t for t in _tuples(lmax) if t[1] == 0 and t[3] == 0]
+    v_un = [o for o in V_OPS if o in V_UNARY and o not in V_CSTR and not o.startswith('to_')]
+    v_bin = [o for o in V_OPS if o not in V_UNARY and o not in V_CSTR]
+    s_un = [o for o in S_OPS if o in S_UNARY and o not in S_CSTR]
+    s_bin = [o for o in S_OPS if o not in S_UNARY and o not in S_CSTR]
+    # ---- views
+    for t in tup1:
+        ops = [o for o in v_un if not (o == 'index' and t[0] == 0) and not (o == 'ptrlen' and t[2])]
+        _single(qs, tier, 'view', V_OPS, 'harness_view', ops, t, lmax, un, 'unary', W_VIEW)
+        if not t[2]: _cstr(qs, 'view', V_OPS, 'harness_view', 'cstr', t, lmax, un, True, W_VIEW)
+        for op in ('to_unsigned', 'to_int'):
+            qs.append(Q('view.%s.%s' % (op, _tname(t, True)), 'c15', H, 'harness_view', defs=_defs(t, lmax, OP=V_OPS.index(op)), unwind=un, inline_witness=True, timeout=300, mem_gb=2,
+                        bounds=_bounds(t, lmax), group='view.%s' % op, what='to_number<%s>: engaged exactly for digit strings, value equals the decimal value' % ('unsigned' if 'uns' in op else 'int')))
+        qs.append(Q('view.sub_string_guard.%s' % _tname(t, True), 'c15', H, 'harness_sub', defs=_defs(t, lmax), unwind=un, inline_witness=True, timeout=300, mem_gb=2,
+                    bounds=_bounds(t, lmax, {'from, size': 'any two 64-bit values'}), group='view.sub_string_guard',
+                    what='sub_string(from,size) for ARBITRARY arguments either stops through its bounds assertion or returns a view inside the source'))
+    for t in tup2:
+        _single(qs, tier, 'view', V_OPS, 'harness_view', v_bin, t, lmax, un, 'binary', W_VIEW)
+        _cstr(qs, 'view', V_OPS, 'harness_view', 'eq_cstr', t, lmax, un, False, W_VIEW)
     # to_number on longer digit strings that still fit (10 digits: value bounded by the target type)
     for la in range(lmax + 1, 11):
-        for k in (V_OPS.index('to_unsigned'), V_OPS.index('to_int')):
+        for op in ('to_unsigned', 'to_int'):
             t = (la, 0, 0, 0)
-            qs.append(Q('view.%s.a%d' % (V_OPS[k], la), 'c15', H, 'harness_view', defs=_defs(t, 10, OP=k), unwind=14, inline_witness=True, timeout=600, mem_gb=3,
-                        bounds=_bounds(t, 10, {'value': 'digit strings whose value fits the target type; any non-digit string'}), group='view.%s' % V_OPS[k],
-                        what='to_number<%s> on strings of length %d: engaged exactly for digit strings, value equals the decimal value' % ('unsigned' if 'uns' in V_OPS[k] else 'int', la)))
-    # sub_string with arbitrary (from, size)
-    for la in range(lmax + 1):
-        for na in ((0, 1) if la == 0 else (0,)):
-            t = (la, 0, na, 0)
-            qs.append(Q('view.sub_string_guard.%s' % _tname(t, True), 'c15', H, 'harness_sub', defs=_defs(t, lmax), unwind=un, inline_witness=True, timeout=300, mem_gb=2,
-                        bounds=_bounds(t, lmax, {'from, size': 'any two 64-bit values'}), group='view.sub_string_guard',
-                        what='sub_string(from,size) for ARBITRARY arguments either stops through its bounds assertion or returns a view inside the source'))
-    # ---- owned strings: constructors and observers
-    for t in _tuples(lmax):
-        for k, op in enumerate(S_OPS):
-            unary = op in S_UNARY
-            if unary and (t[1] != 0 or t[3] != 0): continue
-            if op == 'index' and t[0] == 0: continue
-            if True:
-                cs = op in S_CSTR
-                qs.append(Q('str.%s.%s' % (op, _tname(t, unary)), 'c15', H, 'harness_str', defs=_defs(t, lmax, OP=k, **({'C15_PATHS': 1} if cs else {})), unwind=un, paths=cs, inline_witness=True, timeout=300, mem_gb=2,
-                        bounds=_bounds(t, lmax, CB if cs else None), group='str.%s' % op,
-                        what='basic_string<char, vp_allocator>: %s agrees with the (bytes,len) reference, data()[size()]==0, no access outside source or own buffer, blocks balanced, nothing allocated after destruction' % op))
+            qs.append(Q('view.%s.a%d' % (op, la), 'c15', H, 'harness_view', defs=_defs(t, 10, OP=V_OPS.index(op)), unwind=14, inline_witness=True, timeout=600, mem_gb=3,
+                        bounds=_bounds(t, 10, {'value': 'digit strings whose value fits the target type; any non-digit string'}), group='view.%s' % op,
+                        what='to_number<%s> on strings of length %d: engaged exactly for digit strings, value equals the decimal value' % ('unsigned' if 'uns' in op else 'int', la)))
+    # ---- owned strings: constructors, observers, C-string mutators
+    for t in tup1:
+        ops = [o for o in s_un if not (o == 'index' and t[0] == 0)]
+        _single(qs, tier, 'str', S_OPS, 'harness_str', ops, t, lmax, un, 'unary', W_STR)
+        for op in ('ctor_cstr', 'ctor_alloc_cstr'):
+            if not t[2]: _cstr(qs, 'str', S_OPS, 'harness_str', op, t, lmax, un, True, W_STR)
+    for t in tup2:
+        _single(qs, tier, 'str', S_OPS, 'harness_str', s_bin, t, lmax, un, 'binary', W_STR)
+        for op in ('assign_cstr', 'append_cstr', 'compare_cstr', 'eq_cstr', 'ne_cstr'):
+            if quick and op == 'ne_cstr' and t[0] != t[1]: continue      # != is the C++20 rewrite of ==: the same library code; quick keeps the equal-length tuples
+            _cstr(qs, 'str', S_OPS, 'harness_str', op, t, lmax, un, False, W_STR)
     # ---- histories of mutating operations
     qs += _hist(tier, lmax)
     return qs
@@ -103,8 +130,8 @@ def _hist(tier, lmax):
     full = (1 << n) - 1
     core = sum(1 << M_OPS.index(o) for o in H_CORE)
     if tier == 'quick':
-        k2 = [(0, 0, 1, 1), (0, 1, 0, 0), (1, 0, 0, 1), (2, 2, 0, 0), (4, 3, 0, 0), (3, 4, 0, 0)]
-        k3 = [((0, 0, 1, 1), core), ((1, 2, 0, 0), core), ((2, 1, 0, 0), core)]
+        k2 = [(0, 0, 1, 1), (0, 1, 0, 0), (2, 0, 0, 1), (4, 3, 0, 0)]
+        k3 = [((1, 2, 0, 0), core)]
     else:
         k2 = _tuples(4)
         k3 = [(t, full) for t in [(0, 0, 1, 1), (0, 0, 0, 1), (0, 1, 1, 0), (1, 0, 0, 1), (1, 1, 0, 0), (1, 2, 0, 0), (2, 1, 0, 0), (2, 2, 0, 0)]] + [(t, core) for t in [(3, 4, 0, 0), (4, 3, 0, 0), (4, 4, 0, 0)]]
@@ -128,8 +155,12 @@ def _hq(t, lmax, k, h1, hset):
                   'own exactly one block each; at the end all strings are destroyed and no block is outstanding' % (k, M_OPS[h1], t[0], t[1]))
 
 def queries_c16(tier):
-    """the queries that decide the block clauses of C16 for frg::basic_string (every block given back exactly once, nothing allocated after destruction)"""
-    return [q for q in queries(tier) if q.name.startswith('hist') or (q.name.startswith('str.') and q.name.split('.')[1] in C16_S)]
+    """the queries that decide the block clauses of C16 for frg::basic_string (every block given back exactly once, nothing allocated after destruction):
+    all histories, all constructors (incl. copy/move) and the C-string mutators; every one of them ends with destroying all strings and vp_end()"""
+    def c16(q):
+        p = q.name.split('.')
+        return p[0].startswith('hist') or (p[0] == 'str' and (p[1] in C16_S or p[1] == 'unary'))
+    return [q for q in queries(tier) if c16(q)]
 
 def validation_queries(tier):
     if os.environ.get('C15_SKIP_VALIDATION'): return []     # demonstration runs on a tree whose defects already stop the native builds
